@@ -139,15 +139,10 @@ impl RibbitClient {
                     Ok(n) => {
                         buffer.extend_from_slice(&temp_buf[..n]);
 
-                        // For V2 responses, check for double newline terminator
-                        // For V1 MIME responses, we need to read until connection closes
-                        // or we detect the complete MIME structure
-                        if buffer.ends_with(b"\n\n") {
-                            // Check if this might be a V1 MIME response that's not complete
-                            if !is_v1_mime_response(&buffer) {
-                                break;
-                            }
-                        }
+                        // Ribbit servers close the connection after the response (V1 and
+                        // V2), so EOF is the only terminator. Stopping at a buffer that
+                        // happens to end in "\n\n" made the result depend on how TCP split
+                        // a response that contains a blank line.
 
                         // Safety limit - V1 responses can be larger due to signatures
                         if buffer.len() > 50 * 1024 * 1024 {
